@@ -690,7 +690,9 @@ func (vc *VC) applyModifies(fr *Frame, st, old *State, con *Contract, env *Env) 
 				heapAll[k] = true
 				continue
 			}
-			if m.Elems {
+			if m.Spare {
+				heapT[k] = append(heapT[k], target{"(+ (sptr " + v.S + ") (slen " + v.S + "))", "(+ (sptr " + v.S + ") (scap " + v.S + "))"})
+			} else if m.Elems {
 				heapT[k] = append(heapT[k], target{"(sptr " + v.S + ")", "(+ (sptr " + v.S + ") (slen " + v.S + "))"})
 			} else {
 				heapT[k] = append(heapT[k], target{v.S, "(+ " + v.S + " 1)"})
